@@ -557,3 +557,163 @@ Proof.
 Qed.
 Lemma effective_sel_skip sels : effective_sel (sels ++ [0]) = effective_sel sels.
 Proof. unfold effective_sel. rewrite fold_left_app. reflexivity. Qed.
+
+(* ---- the consumer (Session.listen): what the session holds is the active group's ---------- *)
+(* the session's wrapper and transform are those of the entry under the cursor; its host is one
+   of that entry's hosts whenever the entry names any (-2 marks a host draw outside the range
+   FastRandN promises) *)
+Definition held_ok (ents : list entry) (st : option Z * held) : Prop :=
+  exists i en, fst st = Some i /\ 0 <= i < len ents /\ nth_error ents (Z.to_nat i) = Some en /\
+               h_wrap (snd st) = e_wrap en /\ h_trans (snd st) = e_trans en /\
+               (e_hosts en <> [] -> In (h_host (snd st)) (e_hosts en) \/ h_host (snd st) = -2).
+
+Lemma host_pick_in hosts ds : hosts <> [] -> In (host_pick hosts ds) hosts \/ host_pick hosts ds = -2.
+Proof.
+  intros H. unfold host_pick. destruct hosts as [|a [|b r]]; [congruence | left; left; reflexivity |].
+  destruct (nth_in_or_default (Z.to_nat (fst (take_draw ds))) (a :: b :: r) (-2)); auto.
+Qed.
+
+Lemma host_pick_none ds : host_pick [] ds = -1.
+Proof. reflexivity. Qed.
+
+Lemma host_pick_not_m1 hosts ds : (forall h, In h hosts -> 0 <= h) -> hosts <> [] -> host_pick hosts ds <> -1.
+Proof.
+  intros Hh Hn. destruct (host_pick_in hosts ds Hn) as [Hi | ->]; [|lia].
+  specialize (Hh _ Hi). lia.
+Qed.
+
+Definition hosts_ok (ents : list entry) : Prop :=
+  forall en, In en ents -> forall h, In h (e_hosts en) -> 0 <= h.
+
+(* taking Next's answer of an entry *)
+Lemma take_next_entry ents hd i en ds :
+  hosts_ok ents -> 0 <= i < len ents -> nth_error ents (Z.to_nat i) = Some en ->
+  held_ok ents (Some i, take_next hd (access en ONext ds)) /\
+  (e_hosts en = [] -> h_host (take_next hd (access en ONext ds)) = h_host hd).
+Proof.
+  intros Hh Hi He. cbn [access take_next]. split.
+  - exists i, en. cbn [fst snd h_wrap h_trans h_host]. repeat split; auto; try lia.
+    intros Hn. pose proof (host_pick_not_m1 (e_hosts en) ds (Hh en (nth_error_In _ _ He)) Hn) as Hm.
+    replace (host_pick (e_hosts en) ds =? -1) with false by lia. apply host_pick_in. exact Hn.
+  - intros ->. reflexivity.
+Qed.
+
+Lemma consumer_enter_ok sel ents hd ds :
+  hosts_ok ents -> 0 < len ents -> calls_ok (init_calls sel (len ents) None ds) ->
+  held_ok ents (consumer_enter sel ents hd ds).
+Proof.
+  intros Hh Hn Hk. unfold consumer_enter.
+  destruct (accessor_reads_current sel ents None ONext ds eq_refl Hn (or_introl eq_refl) Hk)
+    as (i & en & Hs & Hi & He & _ & Hv).
+  rewrite Hs, Hv. apply take_next_entry; assumption.
+Qed.
+
+Lemma switch_d_false_keeps sel n cur e ds :
+  cur_ok n cur -> snd (switch_d sel n cur e ds) = false -> fst (switch_d sel n cur e ds) = cur.
+Proof.
+  intros Hc Hf. unfold switch_d in *.
+  pose proof (switch_flag sel n cur e (gate_of sel cur e ds) (pick_of sel n cur e ds) Hc) as [_ H].
+  destruct (fst (switch sel n cur e (gate_of sel cur e ds) (pick_of sel n cur e ds))) as [a|] eqn:Ea,
+           cur as [b|] eqn:Eb; try reflexivity.
+  - destruct (Z.eq_dec a b) as [->|N]; [reflexivity|]. rewrite H in Hf; [discriminate | congruence].
+  - rewrite H in Hf; [discriminate | congruence].
+  - rewrite H in Hf; [discriminate | congruence].
+Qed.
+
+Lemma held_ok_cur_ok ents st : held_ok ents st -> cur_ok (len ents) (fst st).
+Proof. intros (i & en & Hc & Hi & _). right. exists i. auto. Qed.
+
+(* one pass keeps the invariant: a Switch that returns false leaves cursor and holdings alone, one
+   that returns true is followed by Next on the new entry *)
+Lemma consumer_pass_ok sel ents st e ds1 ds2 :
+  hosts_ok ents -> 0 < len ents -> held_ok ents st ->
+  calls_ok (switch_calls sel (len ents) (fst st) e ds1) ->
+  held_ok ents (consumer_pass sel ents st e ds1 ds2).
+Proof.
+  intros Hh Hn Hok Hk. pose proof (held_ok_cur_ok ents st Hok) as Hc.
+  unfold consumer_pass. cbv zeta.
+  change (step_cur sel ents (fst st) (OSwitch e) ds1) with (fst (switch_d sel (len ents) (fst st) e ds1)).
+  destruct (snd (switch_d sel (len ents) (fst st) e ds1)) eqn:Fl.
+  - pose proof (switch_d_member sel (len ents) (fst st) e ds1 Hn Hc Hk) as M.
+    destruct M as (j & Hj & Hjr).
+    assert (Hc1 : cur_ok (len ents) (fst (switch_d sel (len ents) (fst st) e ds1))) by (right; exists j; auto).
+    assert (Hk1 : calls_ok (init_calls sel (len ents) (fst (switch_d sel (len ents) (fst st) e ds1)) ds2))
+      by (rewrite Hj; constructor).
+    destruct (accessor_reads_current sel ents _ ONext ds2 eq_refl Hn Hc1 Hk1) as (i & en & Hs & Hi & He & _ & Hv).
+    rewrite Hs, Hv. apply take_next_entry; assumption.
+  - rewrite (switch_d_false_keeps sel (len ents) (fst st) e ds1 Hc Fl).
+    destruct st as [c hd]. exact Hok.
+Qed.
+
+(* which passes have in-range draws: checked against the cursor the pass starts with *)
+Fixpoint passes_ok (sel : Z) (ents : list entry) (st : option Z * held) (ps : list pass) : Prop :=
+  match ps with
+  | [] => True
+  | p :: r => calls_ok (switch_calls sel (len ents) (fst st) (ps_e p) (ps_ds1 p)) /\
+              passes_ok sel ents (consumer_pass sel ents st (ps_e p) (ps_ds1 p) (ps_ds2 p)) r
+  end.
+
+(* the states after each pass *)
+Fixpoint consumer_states (sel : Z) (ents : list entry) (st : option Z * held) (ps : list pass)
+  : list (option Z * held) :=
+  match ps with
+  | [] => []
+  | p :: r => let st1 := consumer_pass sel ents st (ps_e p) (ps_ds1 p) (ps_ds2 p) in
+              st1 :: consumer_states sel ents st1 r
+  end.
+
+Lemma consumer_states_ok sel ents : hosts_ok ents -> 0 < len ents ->
+  forall ps st, held_ok ents st -> passes_ok sel ents st ps ->
+  Forall (held_ok ents) (consumer_states sel ents st ps).
+Proof.
+  intros Hh Hn. induction ps as [|p r IH]; intros st Hok Hp; [constructor|].
+  cbn [consumer_states]. destruct Hp as [Hk Hr].
+  pose proof (consumer_pass_ok sel ents st (ps_e p) (ps_ds1 p) (ps_ds2 p) Hh Hn Hok Hk) as H1.
+  constructor; [exact H1 | apply IH; assumption].
+Qed.
+
+(* the events the correspondence run compares are exactly the Connects at these states *)
+Lemma consumer_passes_events sel ents : forall ps st,
+  fst (consumer_passes sel ents st ps) = map (connect_event sel ents) (consumer_states sel ents st ps).
+Proof.
+  induction ps as [|p r IH]; intros st; [reflexivity|].
+  cbn [consumer_passes consumer_states map].
+  specialize (IH (consumer_pass sel ents st (ps_e p) (ps_ds1 p) (ps_ds2 p))).
+  destruct (consumer_passes sel ents (consumer_pass sel ents st (ps_e p) (ps_ds1 p) (ps_ds2 p)) r) as [evs stf].
+  cbn [fst] in *. rewrite IH. reflexivity.
+Qed.
+
+(* a Connect in a good state goes through the active entry's connector *)
+Lemma connect_event_active sel ents st :
+  held_ok ents st ->
+  exists en, current ents (fst st) = Some en /\
+    connect_event sel ents st = [e_conn en; h_host (snd st); e_wrap en; e_trans en].
+Proof.
+  intros (i & en & Hc & Hi & He & Hw & Ht & _). exists en.
+  assert (Hcur : current ents (fst st) = Some en).
+  { rewrite Hc. unfold current. replace (i <? 0) with false by lia. exact He. }
+  split; [exact Hcur|].
+  unfold connect_event, step_vals. rewrite Hc. cbn [init_cur]. rewrite <- Hc, Hcur.
+  cbn [access app]. rewrite Hw, Ht. reflexivity.
+Qed.
+
+(* a host-less group keeps the host the session has *)
+Lemma consumer_pass_hostless sel ents st e ds1 ds2 en :
+  hosts_ok ents -> 0 < len ents -> held_ok ents st ->
+  calls_ok (switch_calls sel (len ents) (fst st) e ds1) ->
+  current ents (fst (consumer_pass sel ents st e ds1 ds2)) = Some en -> e_hosts en = [] ->
+  h_host (snd (consumer_pass sel ents st e ds1 ds2)) = h_host (snd st).
+Proof.
+  intros Hh Hn Hok Hk. pose proof (held_ok_cur_ok ents st Hok) as Hc.
+  unfold consumer_pass. cbv zeta.
+  change (step_cur sel ents (fst st) (OSwitch e) ds1) with (fst (switch_d sel (len ents) (fst st) e ds1)).
+  destruct (snd (switch_d sel (len ents) (fst st) e ds1)) eqn:Fl; [|reflexivity].
+  pose proof (switch_d_member sel (len ents) (fst st) e ds1 Hn Hc Hk) as (j & Hj & Hjr).
+  assert (Hc1 : cur_ok (len ents) (fst (switch_d sel (len ents) (fst st) e ds1))) by (right; exists j; auto).
+  assert (Hk1 : calls_ok (init_calls sel (len ents) (fst (switch_d sel (len ents) (fst st) e ds1)) ds2))
+    by (rewrite Hj; constructor).
+  destruct (accessor_reads_current sel ents _ ONext ds2 eq_refl Hn Hc1 Hk1) as (i & en' & Hs & Hi & He & _ & Hv).
+  rewrite Hs, Hv. cbn [fst snd]. intros Hcur Hnil.
+  unfold current in Hcur. replace (i <? 0) with false in Hcur by lia. rewrite He in Hcur. injection Hcur as ->.
+  apply (proj2 (take_next_entry ents (snd st) i en _ Hh Hi He)). exact Hnil.
+Qed.
